@@ -16,13 +16,13 @@ CREATORS = set("socket socketpair accept accept4 pipe pipe2 eventfd epoll_create
                "open64 openat openat64 creat creat64 dup dup2 dup3 inotify_init inotify_init1 "
                "recvmsg mkstemp mkstemp64 mkostemp mkostemp64 signalfd timerfd_create memfd_create "
                "fcntl fcntl64 syscall kqueue socket pidfd_open".split())
-KNOWN_KEY = "loop_init_failure_leaks_backend_fd"
+UDP_KEY = "udp_close_closes_stdio_fd"
+UDP_CASE = "D0 Li ui0:0 uo0:f0 X0 R Lc"
 PAIR = ("pipe2", "socketpair")
 
 # ---------------------------------------------------------------------------
 # scenarios (script language of harness/c15_fd.c)
 # ---------------------------------------------------------------------------
-SPAWN_KEY = "spawn_stream_open_failure_double_close"
 SCENARIOS = {
     "loop": "Li Lc",
     "loop_twice": "Li Lc Li Lc",
@@ -56,7 +56,8 @@ SCENARIOS = {
     "ipc_pass": "Li gs0:1 pi0:1 po0:g0 pi1:1 po1:g1 ti2:4 w20:2 rs1:1 R ti3:0 A1:3 X0 X1 X2 X3 R Lc",
     "ipc_unclaimed": "Li gs0:1 pi0:1 po0:g0 pi1:1 po1:g1 ti2:4 ui4:4 w20:2 rs1:1 R X0 X1 X2 X4 R Lc",
     "sqpoll": "Li Lq Lz R Lc",
-    # uv__stream_open fails for the second stdio container (its pipe handle is already open)
+    # uv__stream_open fails for the second stdio container (its pipe handle is already open):
+    # regression case of /repo 4ad4719 (double close)
     "spawn_busy_stream": "Li gp0:1 pi0:0 pi1:0 po1:g0 sp2:p0,p1,h:ok R X0 X1 X2 R gu1 Lc",
     "iou_lazy_off": "Li Lz R Lc",
 }
@@ -154,7 +155,7 @@ def rc_class(op, rc):
     return "r1"
 
 
-def model_input(parsed, fixed=0):
+def model_input(parsed, fixed=1):
     """The model's program and oracle, from what the harness did and what the kernel answered."""
     init, ops, final = parsed
     mops, pseudo, orc = [], [], []
@@ -230,7 +231,9 @@ def canon_events(events, rn):
     for t in events:
         m = re.match(r"^(x|xbad|xforeign|xlost|c)(\d+)$", t)
         if m:
-            closes.append(m.group(1) + rn.close(int(m.group(2))))
+            # whose descriptor was closed is the monitor's business; the model predicts *that* it is closed
+            kind = "x" if m.group(1) == "xforeign" else m.group(1)
+            closes.append(kind + rn.close(int(m.group(2))))
             continue
         if t[0] in "KMC" or re.match(r"^[ka]\d+$", t):
             continue
@@ -308,6 +311,7 @@ def monitor_line(line):
     lockpipe = None
     last_close_ok = None
     known = None
+    htype = {}
     for idx, (events, op, rc) in enumerate(ops):
         for kind, cx, fds, cls in attempts(events):
             if fds is not None and cx != 1:
@@ -317,11 +321,13 @@ def monitor_line(line):
                 return "descriptor %s created by libuv is open without FD_CLOEXEC when %s returns" % (t[5:], op)
             if t.startswith("!"):
                 return "harness anomaly %s in %s" % (t, op)
+            if t.startswith("xforeign") and op.startswith("cl:") and htype.get(op.split(":")[1]) == "u" \
+                    and int(t[8:]) <= 2:
+                known = "KNOWN:" + UDP_KEY      # uv__udp_close has no stdio test (udp.c:56-64)
+                user.discard(int(t[8:]))
+                continue
             if t.startswith("xforeign"):
                 return "libuv closed descriptor %s which it does not own (in %s)" % (t[8:], op)
-            if t.startswith("xbad") and op.startswith("sp:") and rc not in ("0", "skip"):
-                known = "KNOWN:" + SPAWN_KEY
-                continue
             if t.startswith("xbad"):
                 return "libuv closed descriptor number %s which is not open (double close, in %s)" % (t[4:], op)
             if t.startswith("xlost"):
@@ -345,6 +351,10 @@ def monitor_line(line):
                 made[fd] = (kind, idx, op, rc)
             if op.startswith("Li") and kind == "pipe2" and lockpipe is None and len(fds) == 2:
                 lockpipe = tuple(fds)     # the first pipe of the first initialisation that got this far
+        if op.startswith("hi:"):
+            htype[op.split(":")[1]] = op.split(":")[2]
+        if op.startswith("Li") and rc == "0":
+            htype = {}
         if op.startswith("ua:"):
             user.add(int(op.split(":")[1]))
         if op.startswith("uf:"):
@@ -374,8 +384,6 @@ def monitor_line(line):
                 continue
             leaked.append((fd, kind, op, rc))
         if leaked:
-            if all(k == "epoll" and o.startswith("Li") and r != "0" for _, k, o, r in leaked):
-                return known or ("KNOWN:" + KNOWN_KEY)
             return "after uv_loop_close()==0 the process still holds %s" % \
                 ", ".join("%d (%s from %s)" % (fd, k, o) for fd, k, o, r in leaked)
         # handed to a handle and closed by it: user descriptors > 2 that were adopted
@@ -430,6 +438,18 @@ def main():
         corpus = os.path.join(vf.VERIF, "corpus", "C15", "scripts.txt")
         if os.path.exists(corpus):
             named += [("corpus%d" % i, l.strip()) for i, l in enumerate(open(corpus)) if l.strip() and l[0] != "#"]
+    # uv_udp_open(0) + uv_close closes descriptor 0 (observation, notes/C15.md): part of the case set
+    # once its key is listed in known_findings.json; until then probed and recorded only
+    if not chk.replay:
+        if chk.match_known(UDP_KEY) is not None:
+            named.append(("udp_stdio", UDP_CASE))
+        else:
+            po = run_impl([UDP_CASE])
+            r0 = monitor_line(po[0]) if po else "no output"
+            chk.cov["observation_" + UDP_KEY] = {"script": UDP_CASE, "reproduced": r0 == "KNOWN:" + UDP_KEY,
+                                                 "monitor": r0, "impl": (po[0][:400] if po else "")}
+            if r0 == "KNOWN:" + UDP_KEY:
+                print("note: observation %s reproduced (not listed in known_findings.json, see notes/C15.md)" % UDP_KEY)
     base = [s for _, s in named]
     base_out = run_impl(base)
     if len(base_out) != len(base):
@@ -466,16 +486,11 @@ def main():
                 origin[c] = name
     impl = base_out + run_impl(cases[len(base):])
     raw = dict(zip(cases, impl))
-    # which variant of the model is in force: the current code (backend_fd leaks when uv_loop_init
-    # fails late) or the one with notes/C15_fix_loop_init_leak.diff applied.  Decided on the
-    # refutation witness of C15_loop_init_leaks_backend_fd_refuted: "N3 Li" (rwlock init fails).
-    fixed = 0
-    wl = run_impl(["N3 Li"])
-    wp = parse_impl(wl[0]) if wl else None
-    if wp is not None and len(wp[2]) == len(wp[0]) + 2:      # only the lock pipe stayed behind
-        fixed = 1
-    chk.cov["model_variant"] = "fixed (backend_fd closed on uv_loop_init failure)" if fixed else \
-        "current code (uv_loop_init failure exits leave backend_fd open)"
+    # The model variant is fixed: the code as it is (m_fixed = true, after /repo 9298bc0 and 4ad4719).
+    # A tree in which the backend_fd leak or the spawn double close is back disagrees with it and
+    # fails the monitor: a plain VIOLATION with the failing script.
+    fixed = 1
+    chk.cov["model_variant"] = "current code (run true)"
     minputs, pseudos, icanon = [], [], []
     for c, line in zip(cases, impl):
         p = parse_impl(line)
@@ -496,7 +511,110 @@ def main():
     chk.cov["scenarios"] = len(named)
     chk.cov["fault_cases"] = len(cases) - len(base)
     chk.cov["creation_kinds_exercised"] = kinds_hit
-    chk.cov["known_leak_cases"] = sum(1 for c in cases if (monitor_line(raw[c]) or "").startswith("KNOWN:"))
+    chk.sample({"case": cases[1], "impl": raw[cases[1]][:300], "model_input": minputs[1][:300]})
+    if len(cases) > len(base):
+        chk.sample({"case": cases[len(base)], "impl": raw[cases[len(base)]][:300]})
+
+    chk.finish(rule="build failed")
+    # every descriptor-creating import of the fresh library must be wrapped
+    r = vf.sh("nm -u %s | awk '$1==\"U\"{print $2}' | sort -u" % lib, shell=True)
+    imports = set(r.stdout.split())
+    unwrapped = sorted((imports & CREATORS) - set(WRAPS))
+    chk.cov["creating_imports"] = sorted(imports & CREATORS)
+    if unwrapped:
+        chk.violation("libuv imports descriptor-creating calls the harness does not wrap: %s" % unwrapped,
+                      {"kind": "harness", "imports": unwrapped}, found_input=False)
+    ddir = os.path.join(chk.scratch.dir, "d")
+    os.makedirs(ddir, exist_ok=True)
+    env = dict(os.environ, UV_USE_IO_URING="1", UV_THREADPOOL_SIZE="1")
+
+    def run_impl(scripts):
+        out, rc, err = vf.run_lines([exe, ddir], scripts, shards=vf.JOBS, env=env, timeout=900)
+        return out
+
+    if chk.replay:
+        import json
+        rp = json.load(open(chk.replay))
+        scripts = [rp.get("case", "Li Lc")]
+        named = [("replay", scripts[0])]
+    else:
+        named = list(SCENARIOS.items()) + random_scenarios(chk.rng, 40 if thorough else 10)
+        corpus = os.path.join(vf.VERIF, "corpus", "C15", "scripts.txt")
+        if os.path.exists(corpus):
+            named += [("corpus%d" % i, l.strip()) for i, l in enumerate(open(corpus)) if l.strip() and l[0] != "#"]
+    # uv_udp_open(0) + uv_close closes descriptor 0 (observation, notes/C15.md): part of the case set
+    # once its key is listed in known_findings.json; until then probed and recorded only
+    if not chk.replay:
+        if chk.match_known(UDP_KEY) is not None:
+            named.append(("udp_stdio", UDP_CASE))
+        else:
+            po = run_impl([UDP_CASE])
+            r0 = monitor_line(po[0]) if po else "no output"
+            chk.cov["observation_" + UDP_KEY] = {"script": UDP_CASE, "reproduced": r0 == "KNOWN:" + UDP_KEY,
+                                                 "monitor": r0, "impl": (po[0][:400] if po else "")}
+            if r0 == "KNOWN:" + UDP_KEY:
+                print("note: observation %s reproduced (not listed in known_findings.json, see notes/C15.md)" % UDP_KEY)
+    base = [s for _, s in named]
+    base_out = run_impl(base)
+    if len(base_out) != len(base):
+        chk.violation("harness produced %d lines for %d scripts" % (len(base_out), len(base)),
+                      {"kind": "harness", "out": base_out[-3:]}, found_input=False)
+        chk.finish(rule="harness failed")
+    # second round: fail the k-th creation, for every k of every scenario
+    cases = list(base)
+    origin = {s: n for n, s in named}
+    kinds_hit = {}
+    for (name, s), line in zip(named, base_out):
+        p = parse_impl(line)
+        if p is None:
+            continue
+        # index of the process-wide lock pipe: its failure is abort() (DESIGN section 3 item 23, C16)
+        k, skip = 0, set()
+        seen_lock = False
+        for events, op, rc in p[1]:
+            for kind, cx, fds, cls in attempts(events):
+                if kind in ("late", "cmsg"):
+                    continue
+                k += 1
+                if op.startswith("Li") and kind == "pipe2" and not seen_lock:
+                    skip.add(k); seen_lock = True
+                kinds_hit[kind] = kinds_hit.get(kind, 0) + 1
+        errs = ["e", "n", "m"] if (thorough or name in ("loop", "tcp_accept", "spawn", "ipc_pass")) else \
+            [chk.rng.choice(["e", "e", "n", "m"])]
+        for i in range(1, k + 1):
+            if i in skip:
+                continue
+            for e in errs:
+                c = "F%d%s %s" % (i, e, s)
+                cases.append(c)
+                origin[c] = name
+    impl = base_out + run_impl(cases[len(base):])
+    raw = dict(zip(cases, impl))
+    # The model variant is fixed: the code as it is (m_fixed = true, after /repo 9298bc0 and 4ad4719).
+    # A tree in which the backend_fd leak or the spawn double close is back disagrees with it and
+    # fails the monitor: a plain VIOLATION with the failing script.
+    fixed = 1
+    chk.cov["model_variant"] = "current code (run true)"
+    minputs, pseudos, icanon = [], [], []
+    for c, line in zip(cases, impl):
+        p = parse_impl(line)
+        if p is None:
+            minputs.append(""); pseudos.append([]); icanon.append("IMPL: " + line[:200])
+            continue
+        mi, ps = model_input(p, fixed)
+        minputs.append(mi); pseudos.append(ps); icanon.append(canon_impl(p))
+    mout, rc2, err2 = vf.run_lines([model], minputs, shards=8)
+    if len(mout) != len(cases):
+        mout = (mout + [""] * len(cases))[:len(cases)]
+    mcanon = [canon_model(l, ps) for l, ps in zip(mout, pseudos)]
+
+    def monitor(case, _):
+        return monitor_line(raw[case])
+    vf.diff_cases(chk, "descriptor ledger: libuv (wrapped creations/closes, table scans) = Model/FdLedger.v",
+                  cases, icanon, mcanon, monitor)
+    chk.cov["scenarios"] = len(named)
+    chk.cov["fault_cases"] = len(cases) - len(base)
+    chk.cov["creation_kinds_exercised"] = kinds_hit
     chk.sample({"case": cases[1], "impl": raw[cases[1]][:300], "model_input": minputs[1][:300]})
     if len(cases) > len(base):
         chk.sample({"case": cases[len(base)], "impl": raw[cases[len(base)]][:300]})
